@@ -111,7 +111,8 @@ func (pa *patchApplierWO) Delete(key []byte) {
 	if ok, err := pa.db.Has(key); err != nil {
 		pa.err = err
 	} else if !ok {
-		pa.err = pa.db.Put(key, []byte{0})
+		// a deleted key is stored with an empty value; {0} is an existing key with an empty value
+		pa.err = pa.db.Put(key, []byte{})
 	}
 }
 
